@@ -73,6 +73,7 @@ type simNet struct {
 	// dialPeer short-circuits)
 	notConnected map[peer.ID]bool
 	notifiees    []network.Notifiee
+	peers        []peer.ID // what Peers() reports (the peers connected when the DHT is created)
 }
 
 func (n *simNet) Connectedness(p peer.ID) network.Connectedness {
@@ -83,7 +84,7 @@ func (n *simNet) Connectedness(p peer.ID) network.Connectedness {
 	}
 	return network.Connected
 }
-func (n *simNet) Peers() []peer.ID                      { return nil }
+func (n *simNet) Peers() []peer.ID                      { return append([]peer.ID(nil), n.peers...) }
 func (n *simNet) Conns() []network.Conn                 { return nil }
 func (n *simNet) ConnsToPeer(peer.ID) []network.Conn    { return nil }
 func (n *simNet) LocalPeer() peer.ID                    { return n.self }
@@ -300,9 +301,17 @@ type simNode struct {
 
 // simNewNode builds a real IpfsDHT on the fake host.  Must be called inside a
 // synctest bubble; call Close before the bubble ends.
+// simPreNew, when set, is called with the fake host before dht.New (e.g. to report peers that
+// are already connected); it is cleared by the call.
+var simPreNew func(h *simHost)
+
 func simNewNode(t *testing.T, r *vfRand, k, alpha, beta int, extra ...Option) *simNode {
 	g := &simGate{}
 	h := simNewHost(r, g)
+	if simPreNew != nil {
+		simPreNew(h)
+		simPreNew = nil
+	}
 	n := &simNode{t: t, h: h, gate: g}
 	n.sender = &simSender{gate: g}
 	opts := []Option{
